@@ -29,22 +29,22 @@ pub fn gen16(tier: &str, rng: &mut Rng) -> Vec<Spec> {
         if i % 2 == 0 { v.push(Spec::new("mvw").with("N", *rng.pick(&[1usize, 2, 3, 4, 5, 8])).with("off", off.show()).with("xs", join_rats(&xs))); }
         else { v.push(Spec::new("mve").with("w", Rat::new(rng.range(0, 8) as i128, 8).show()).with("off", off.show()).with("xs", join_rats(&xs))); }
     }
-    v
+    with_entry_points(v, rng, &["mvw", "mve"], 12)
 }
 fn run_mv<F: Filter<Rat, Output = O>, O>(f: &mut F, xs: &[Rat], get: impl Fn(O) -> (Rat, Rat)) -> (Vec<(Rat, Rat)>, bool) {
     let mut ys = vec![];
     for x in xs { match catch(|| f.filter(*x)) { Ok(y) => ys.push(get(y)), Err(_) => return (ys, true) } }
     (ys, false)
 }
-fn mvw_run<const N: usize>(xs: &[Rat]) -> (Vec<(Rat, Rat)>, bool) { run_mv(&mut mvw::MeanVariance::<Rat, N>::default(), xs, |o| (o.mean, o.variance)) }
+fn mvw_run<const N: usize>(xs: &[Rat], s: &Spec, stats: &mut Stats) -> (Vec<(Rat, Rat)>, bool) { run_mv(&mut prep(mvw::MeanVariance::<Rat, N>::default(), s, stats), xs, |o| (o.mean, o.variance)) }
 pub fn exec16(s: &Spec, stats: &mut Stats) -> Outcome {
     let xs = s.rats("xs"); let off = s.rat("off"); let xs2: Vec<Rat> = xs.iter().map(|x| *x + off).collect();
     stats.bump(format!("kind:{}", s.kind)); stats.bump(format!("len:{}", xs.len()));
     let pr = |v: &[(Rat, Rat)]| clist(v, |(a, b)| format!("({}, {})", cq(a), cq(b)));
     if s.kind == "mvw" {
         let n = s.usize("N");
-        let (a, b) = match n { 1 => (mvw_run::<1>(&xs), mvw_run::<1>(&xs2)), 2 => (mvw_run::<2>(&xs), mvw_run::<2>(&xs2)), 3 => (mvw_run::<3>(&xs), mvw_run::<3>(&xs2)),
-            4 => (mvw_run::<4>(&xs), mvw_run::<4>(&xs2)), 5 => (mvw_run::<5>(&xs), mvw_run::<5>(&xs2)), 8 => (mvw_run::<8>(&xs), mvw_run::<8>(&xs2)), _ => return Outcome::Skip("width-not-instantiated") };
+        let (a, b) = match n { 1 => (mvw_run::<1>(&xs, s, stats), mvw_run::<1>(&xs2, s, stats)), 2 => (mvw_run::<2>(&xs, s, stats), mvw_run::<2>(&xs2, s, stats)), 3 => (mvw_run::<3>(&xs, s, stats), mvw_run::<3>(&xs2, s, stats)),
+            4 => (mvw_run::<4>(&xs, s, stats), mvw_run::<4>(&xs2, s, stats)), 5 => (mvw_run::<5>(&xs, s, stats), mvw_run::<5>(&xs2, s, stats)), 8 => (mvw_run::<8>(&xs, s, stats), mvw_run::<8>(&xs2, s, stats)), _ => return Outcome::Skip("width-not-instantiated") };
         Outcome::Case(format!("mk 0%nat {}%nat 0 {} {} {} {} {}", n, cqlist(&xs), cq(&off), pr(&a.0), pr(&b.0), cbool(a.1 || b.1)))
     } else {
         let w = s.rat("w");
@@ -56,7 +56,7 @@ pub fn exec16(s: &Spec, stats: &mut Stats) -> Outcome {
             for x in &xs { match catch(|| f.filter(x.to_f64())) { Ok(o) => out.push((ex(o.mean), ex(o.variance))), Err(_) => { bad = true; break } } }
             return Outcome::Case(format!("mk 1%nat 0%nat {} {} {} {} {} {}", cq(&w), cqlist(&xs), cq(&off), pr(&out), pr(&out), cbool(bad)));
         }
-        let mk = || mve::MeanVariance::with_config(mve::Config { inverse_width: w });
+        let mut mk = || prep(mve::MeanVariance::with_config(mve::Config { inverse_width: w }), s, stats);
         let a = run_mv(&mut mk(), &xs, |o| (o.mean, o.variance)); let b = run_mv(&mut mk(), &xs2, |o| (o.mean, o.variance));
         Outcome::Case(format!("mk 1%nat 0%nat {} {} {} {} {} {}", cq(&w), cqlist(&xs), cq(&off), pr(&a.0), pr(&b.0), cbool(a.1 || b.1)))
     }
